@@ -27,7 +27,8 @@ type e1World struct {
 	snap  *fsx.Snap // last observation of the emulated tree (equal to the kernel's while in step)
 	umask uint32
 	cwd   string
-	sugid bool // a setuid or setgid bit has been set in this run (semantics the library does not emulate)
+	norm  func(o fsx.Op, a, k *fsx.Result) // property-specific normalisation before the comparison
+	sugid bool                             // a setuid or setgid bit has been set in this run (semantics the library does not emulate)
 	users map[int]avfs.UserReader
 	views map[int]*fsx.Env // per uid views (C03)
 }
@@ -244,6 +245,19 @@ func (w *e1World) step(c *sim.Ctx, prop string, i int, o fsx.Op, env *fsx.Env, u
 		out.classes = rs.Classes
 	}
 
+	if strings.HasPrefix(o.K, "F") {
+		// what the handle is, before the call.
+		hc := "hnone"
+		if o.H >= 0 && o.H < fsx.MaxHandles && env.H[o.H] != nil {
+			hc = "hfile"
+			if env.IsDir[o.H] {
+				hc = "hdir"
+			}
+		}
+
+		out.classes = []string{hc}
+	}
+
 	op := o
 	_, v, msg := sim.Call1(func() string {
 		out.a = env.Exec(op)
@@ -284,6 +298,10 @@ func (w *e1World) step(c *sim.Ctx, prop string, i int, o fsx.Op, env *fsx.Env, u
 
 	out.k = rs.Res
 	pre := w.sigPrefix(o, out.classes)
+
+	if w.norm != nil {
+		w.norm(o, &out.a, &out.k)
+	}
 
 	if w.kind == "orefafs" {
 		// OrefaFS advertises no identity manager: owners are not compared.
